@@ -3,6 +3,8 @@
 (default: the check of the same property) and prints which ones fire.  /repo is restored after each."""
 import json, os, subprocess, sys
 V = os.path.dirname(os.path.dirname(os.path.abspath(__file__)))
+REPO = os.environ.get("SEEDS_REPO", "/repo")      # a scratch worktree of /repo may be given: /repo itself then stays untouched
+ENV = dict(os.environ, VERIF_REPO=REPO)
 seeds = sorted(os.listdir(os.path.join(V, "seeded")))
 only = sys.argv[1:]
 res = {}
@@ -10,17 +12,17 @@ for s in seeds:
     if only and s not in only:
         continue
     patch = os.path.join(V, "seeded", s, "patch.diff")
-    if subprocess.call(["git", "-C", "/repo", "apply", patch]) != 0:
+    if subprocess.call(["git", "-C", REPO, "apply", patch]) != 0:
         print(s, "patch does not apply"); continue
     try:
         pid = s[:3]
-        p = subprocess.run([os.path.join(V, "check"), pid, "--tier", "quick"], cwd=V, stdout=subprocess.PIPE, stderr=subprocess.STDOUT, universal_newlines=True, timeout=3000)
+        p = subprocess.run([os.path.join(V, "check"), pid, "--tier", "quick"], cwd=V, env=ENV, stdout=subprocess.PIPE, stderr=subprocess.STDOUT, universal_newlines=True, timeout=3000)
         fired = "VIOLATION" in p.stdout
         first = [l for l in p.stdout.splitlines() if "violation:" in l or "broken:" in l][:1]
         res[s] = fired
         print("%s: check %s -> %s  %s" % (s, pid, "CAUGHT" if fired else "MISSED", (first[0][:220] if first else "")))
     finally:
-        subprocess.call(["git", "-C", "/repo", "checkout", "--", "."])
+        subprocess.call(["git", "-C", REPO, "checkout", "--", "."])
         # evidence/<id>.json must describe the unchanged tree: re-run the check there
         subprocess.run([os.path.join(V, "check"), s[:3], "--tier", "quick"], cwd=V, stdout=subprocess.DEVNULL, stderr=subprocess.DEVNULL)
 subprocess.call([sys.executable, os.path.join(V, "tools", "gen_all.py")], stdout=subprocess.DEVNULL)   # regenerate coq/gen from the restored tree
